@@ -23,7 +23,7 @@ REPO = os.environ.get("VERIF_REPO", "/repo")
 HARNESS = os.path.join(ROOT, "harness")
 GOSX = os.path.join(ROOT, "bin", "gosx")
 MOD = "github.com/blinklabs-io/gouroboros"
-REPLAY_TRIES = 4
+REPLAY_TRIES = 6
 
 
 def goenv():
